@@ -556,6 +556,12 @@ fire("C20", "kde-bandwidth-unfitted", "R20.3", E(KDEF, "KDEVectorizer.transform"
 silent("C20", "kde-hoisted-estimator", [E(KDEF, "KDEVectorizer.transform", "        for i, sample in enumerate(X):\n            kde = KernelDensity(bandwidth=self.bandwidth_, kernel=self.kernel)\n", "        kde = KernelDensity(bandwidth=self.bandwidth_, kernel=self.kernel)\n        for i, sample in enumerate(X):\n")],
      "one estimator object re-fitted per row: fit() discards the previous sample, behaviour-preserving")
 silent("C20", "outlier-guard-mirrored", E(VEC, "add_outier_bins", "    if interval_list[0].left > absolute_range[0]:", "    if absolute_range[0] < interval_list[0].left:"), "same test the other way round")
+_EXP_OLD = "    # Check if the right boundary needs expanding\n    last = len(interval_list) - 1\n    if interval_list[last].right < absolute_range[1]:\n        interval_list[last] = pd.Interval(\n            left=interval_list[last].left, right=absolute_range[1]\n        )\n"
+fire("C20", "widen-from-stale-alias", "R20.1", [E(VEC, "expand_boundaries", "    interval_list = my_interval_index.to_list()\n", "    interval_list = my_interval_index.to_list()\n    first, last_bin = interval_list[0], interval_list[-1]\n"),
+     E(VEC, "expand_boundaries", _EXP_OLD, "    if last_bin.right < absolute_range[1]:\n        interval_list[-1] = pd.Interval(left=last_bin.left, right=absolute_range[1])\n")],
+     "seeded r4_C20: the last bin is snapshotted before the first is widened; with one learned bin the lower widening is lost")
+silent("C20", "widen-from-fresh-alias", [E(VEC, "expand_boundaries", _EXP_OLD, "    last_bin = interval_list[-1]\n    if last_bin.right < absolute_range[1]:\n        interval_list[-1] = pd.Interval(left=last_bin.left, right=absolute_range[1])\n")],
+     "the same tidy-up with the alias taken after the lower widening")
 fire("C20", "kde-fit-on-all", "R20.3", E(KDEF, "KDEVectorizer.transform", "            kde.fit(sample[:, None])", "            kde.fit(np.hstack(X)[:, None])"),
      "every row's density fitted on the whole batch")
 
